@@ -91,14 +91,14 @@ Definition band_tol (r c : nat) (M : dmat) (lo hi : nat) (tol : dy) : bool :=
   dall r c M (fun i j x => (Nat.leb i (j + lo) && Nat.leb j (i + hi)) || dle (dabs x) tol).
 
 (* quasi upper triangular as coded: everything below the first subdiagonal is
-   (within tol) zero, no two consecutive subdiagonal entries are non-zero, and a
+   (within tol) zero, no two consecutive subdiagonal entries exceed tol, and a
    remaining 2x2 block has complex eigenvalues: (h11-h22)^2 + 4 h12 h21 < 0 *)
 Definition quasi_tri (n : nat) (H : dmat) (tol : dy) : bool :=
   band_tol n n H 1 n tol &&
   forallb (fun i =>
     let s := dget H (S i) i in
-    dis0 s ||
-    (dis0 (dget H (S (S i)) (S i)) &&
+    dle (dabs s) tol ||
+    (dle (dabs (dget H (S (S i)) (S i))) tol &&
      let d := dsub (dget H i i) (dget H (S i) (S i)) in
      dlt (dadd (dmul d d) (dmul (4, 0) (dmul (dget H i (S i)) s))) dzero)) (seq 0 (n - 1)).
 
@@ -143,13 +143,13 @@ Definition rcheck (c : rcase) : bool :=
       (negb setzero || band_tol n n H 1 n dzero) &&
       opt_all U (fun U => dorth n U K && dclose n n (dmmul (dmmul U H) (dtrans U)) A (tolA A n K))
   | RBidiag A Bm U V =>
-      (* as coded: A = U B V (V is accumulated already transposed) *)
+      (* documented convention (the package's own test): U^T A V = B, i.e. A = U B V^T *)
       let m := length A in let n := dncols A in
       dims_ok Bm m n &&
       band_tol m n Bm 0 1 (tolA A m K) &&
       opt_all U (fun U => dorth m U K) && opt_all V (fun V => dorth n V K) &&
       match U, V with
-      | Some U, Some V => dclose m n (dmmul (dmmul U Bm) V) A (tolA A m K)
+      | Some U, Some V => dclose m n (dmmul (dmmul U Bm) (dtrans V)) A (tolA A m K)
       | _, _ => true
       end
   | RTridiag A T U =>
